@@ -103,6 +103,8 @@ void save_binary (program_t * prog, mem_block_t * includes, mem_block_t * patche
         }
     }
 
+  if (strlen (CONFIG_STR (__SAVE_BINARIES_DIR__)) + strlen (prog->name) + 2 > sizeof (file_name_buf))
+    return; /* name of the binary would not fit file_name_buf */
   strcpy (file_name, CONFIG_STR (__SAVE_BINARIES_DIR__));
   if (file_name[0] == '/')
     file_name++;
@@ -512,6 +514,9 @@ program_t *load_binary (const char *name) {
 
   if (!CONFIG_STR(__SAVE_BINARIES_DIR__))
     return OUT_OF_DATE;
+  /* file_name uses the first half of file_name_buf, file_name_two the second */
+  if (strlen (CONFIG_STR (__SAVE_BINARIES_DIR__)) + strlen (name) + 2 > sizeof (file_name_buf) / 2)
+    return OUT_OF_DATE;
   sprintf (file_name, "%s/%s", CONFIG_STR (__SAVE_BINARIES_DIR__), name);
   if (file_name[0] == '/')
     file_name++;
@@ -732,6 +737,15 @@ program_t *load_binary (const char *name) {
        * Check times against inherited source.  If saved binary of
        * inherited prog exists, check against it also.
        */
+      if (strlen (CONFIG_STR (__SAVE_BINARIES_DIR__)) + strlen (buf) + 2 > sizeof (file_name_buf) / 2)
+        {
+          opt_trace (TT_COMPILE|1, "inherited program name too long.");
+          fclose (f);
+          free_string (p->name);
+          FREE (p);
+          FREE (buf);
+          return OUT_OF_DATE;
+        }
       sprintf (file_name_two, "%s/%s", CONFIG_STR (__SAVE_BINARIES_DIR__), buf);
       if (file_name_two[0] == '/')
         file_name_two++;
